@@ -167,7 +167,16 @@ def unbalance(rng, text):
 
 
 # ---------------------------------------------------------------- running the binary
-def run_script(cicada, text, workdir, timeout=30, args=()):
+def run_script(cicada, text, workdir, timeout=60, args=()):
+    r_ = run_script1(cicada, text, workdir, timeout, args)
+    if r_[0] == "TIMEOUT":   # a loaded machine, not a verdict: once more, alone-ish and with a generous limit
+        for fn in os.listdir(workdir):
+            os.remove(os.path.join(workdir, fn))
+        r_ = run_script1(cicada, text, workdir, 600, args)
+    return r_
+
+
+def run_script1(cicada, text, workdir, timeout, args=()):
     env = {"VERIF_TRACE": os.path.join(workdir, "trace"), "HOME": workdir, "XDG_CONFIG_HOME": workdir,
            "PATH": "/usr/bin:/bin", "LANG": "C.UTF-8"}
     sp = os.path.join(workdir, "s.sh")
